@@ -4,7 +4,7 @@
    from the cellpylib working tree on every run (so they are statements about the tables the code has NOW). *)
 From Coq Require Import ZArith.
 From CPL Require Import Model.Base Model.CTRBL Model.Loops Model.SayamaSpec Proofs.CTRBLProofs.
-From CPL Require Import gen.GenTables GenProps.C15Tables.
+From CPL Require Import gen.GenTables GenProps.C15Tables Proofs.CTRBLClauses.
 Local Open Scope Z_scope.
 
 (* k is k' or one of its three quarter-turns; rot (C,T,R,B,L) = (C,L,T,R,B) is r.insert(1, r.pop(4)) *)
@@ -132,6 +132,86 @@ Theorem C15_evoloop_defaults : forall c t r b l,
   evoloop_call evoloop_table (c, t, r, b, l) = Some (sayama_default EVOLOOP c t r b l).
 Proof. exact evoloop_defaults. Qed.
 
+(* ---------------------------------------------------------------- the clauses of the property's parenthesis,
+   one named theorem each: "(8 always becomes 0; undefined 0 stays 0; undefined 1-7 become 8; the 8-neighbour and
+   tube rules)". "undefined" = outside the regenerated table, no 8 among T,R,B,L and (SDSR) no tube rule applies.
+   next_to / in_tube / tube_rule / member are the readable definitions of Model/SayamaSpec.v. *)
+
+(* "8 ALWAYS becomes 0": all 9^4 neighbour combinations, through the table or the default; no hypothesis on the
+   table (an entry with centre 8 and another image would break it) *)
+Theorem C15_eight_always_zero : forall t r b l,
+  0 <= t < 9 -> 0 <= r < 9 -> 0 <= b < 9 -> 0 <= l < 9 ->
+  sdsr_call sdsr_table (8, t, r, b, l) = Some 0 /\ evoloop_call evoloop_table (8, t, r, b, l) = Some 0.
+Proof. exact eight_always_zero. Qed.
+
+(* "undefined 0 stays 0" (SDSR: unless the tube rule 0->1 applies) *)
+Theorem C15_undefined_zero_stays_zero : forall t r b l,
+  0 <= t < 9 -> 0 <= r < 9 -> 0 <= b < 9 -> 0 <= l < 9 ->
+  next_to 8 [t; r; b; l] = false ->
+  (dict_get (0, t, r, b, l) sdsr_table = None -> in_tube [t; r; b; l] && next_to 1 [t; r; b; l] = false ->
+   sdsr_call sdsr_table (0, t, r, b, l) = Some 0) /\
+  (dict_get (0, t, r, b, l) evoloop_table = None -> evoloop_call evoloop_table (0, t, r, b, l) = Some 0).
+Proof. exact undefined_zero_stays_zero. Qed.
+
+(* "undefined 1-7 become 8" *)
+Theorem C15_undefined_1_7_become_eight : forall c t r b l,
+  1 <= c <= 7 -> 0 <= t < 9 -> 0 <= r < 9 -> 0 <= b < 9 -> 0 <= l < 9 ->
+  next_to 8 [t; r; b; l] = false ->
+  (dict_get (c, t, r, b, l) sdsr_table = None -> tube_rule c [t; r; b; l] = None ->
+   sdsr_call sdsr_table (c, t, r, b, l) = Some 8) /\
+  (dict_get (c, t, r, b, l) evoloop_table = None -> evoloop_call evoloop_table (c, t, r, b, l) = Some 8).
+Proof. exact undefined_1_7_become_eight. Qed.
+
+(* "the 8-neighbour rules": next to an 8, 0/1 -> 8 if some 2..7 is adjacent else unchanged; 2,3,5 -> 0; 4,6,7 -> 1 *)
+Theorem C15_eight_neighbour_rules : forall c t r b l,
+  0 <= c < 8 -> 0 <= t < 9 -> 0 <= r < 9 -> 0 <= b < 9 -> 0 <= l < 9 ->
+  next_to 8 [t; r; b; l] = true ->
+  let image := if member c [0; 1]
+               then (if existsb (fun s => next_to s [t; r; b; l]) [2; 3; 4; 5; 6; 7] then 8 else c)
+               else if member c [2; 3; 5] then 0 else 1 in
+  (dict_get (c, t, r, b, l) sdsr_table = None -> sdsr_call sdsr_table (c, t, r, b, l) = Some image) /\
+  (dict_get (c, t, r, b, l) evoloop_table = None -> evoloop_call evoloop_table (c, t, r, b, l) = Some image).
+Proof. exact eight_neighbour_rules. Qed.
+
+(* "the tube rules" (SDSR; tube_rule in Model/SayamaSpec.v lists them) *)
+Theorem C15_sdsr_tube_rules : forall c t r b l image,
+  0 <= c < 8 -> 0 <= t < 9 -> 0 <= r < 9 -> 0 <= b < 9 -> 0 <= l < 9 ->
+  next_to 8 [t; r; b; l] = false -> dict_get (c, t, r, b, l) sdsr_table = None ->
+  tube_rule c [t; r; b; l] = Some image ->
+  sdsr_call sdsr_table (c, t, r, b, l) = Some image.
+Proof. exact sdsr_tube_rules. Qed.
+
+(* the same totality at the level of the 3x3 block handed to __call__ (corners arbitrary) *)
+Theorem C15_loops_total_range_block : forall a0 a2 c0 c2 c t r b l,
+  0 <= c < 9 -> 0 <= t < 9 -> 0 <= r < 9 -> 0 <= b < 9 -> 0 <= l < 9 ->
+  let n := [[a0; t; a2]; [l; c; r]; [c0; b; c2]] in
+  (exists v, SDSRLoop_call sdsr_table n = Some v /\ 0 <= v <= 8) /\
+  (exists v, Evoloop_call evoloop_table n = Some v /\ 0 <= v <= 8).
+Proof. intros. split; [apply sdsr_total_range | apply evoloop_total_range]; assumption. Qed.
+
+(* the hypotheses of the clause theorems are met: every clause has keys in 0..8^5 outside the regenerated table
+   (clause_inhabited, Proofs/CTRBLClauses.v: found by a sweep, so an edited table does not break the Example unless
+   a clause really becomes empty) *)
+Example C15_nonvacuous_clauses :
+  clause_inhabited sdsr_table (fun k => let '(c, t, r, b, l) := k in
+     (c =? 0) && negb (next_to 8 [t; r; b; l]) && negb (in_tube [t; r; b; l] && next_to 1 [t; r; b; l])) = true /\
+  clause_inhabited sdsr_table (fun k => let '(c, t, r, b, l) := k in
+     (1 <=? c) && (c <=? 7) && negb (next_to 8 [t; r; b; l])
+     && match tube_rule c [t; r; b; l] with None => true | Some _ => false end) = true /\
+  clause_inhabited evoloop_table (fun k => let '(c, t, r, b, l) := k in
+     (1 <=? c) && (c <=? 7) && negb (next_to 8 [t; r; b; l])) = true /\
+  clause_inhabited sdsr_table (fun k => let '(c, t, r, b, l) := k in (c <? 8) && next_to 8 [t; r; b; l]) = true /\
+  clause_inhabited evoloop_table (fun k => let '(c, t, r, b, l) := k in (c <? 8) && next_to 8 [t; r; b; l]) = true /\
+  clause_inhabited sdsr_table (fun k => let '(c, t, r, b, l) := k in
+     (c <? 8) && negb (next_to 8 [t; r; b; l])
+     && match tube_rule c [t; r; b; l] with Some v => negb (v =? (if c =? 0 then 0 else 8)) | None => false end) = true /\
+  tube_rule 1 [7; 1; 0; 0] = Some 7 /\ tube_rule 3 [1; 1; 0; 0] = None /\ next_to 8 [0; 8; 0; 0] = true.
+Proof.
+  split; [vm_compute; reflexivity|]. split; [vm_compute; reflexivity|]. split; [vm_compute; reflexivity|].
+  split; [vm_compute; reflexivity|]. split; [vm_compute; reflexivity|]. split; [vm_compute; reflexivity|].
+  split; [vm_compute; reflexivity|]. split; vm_compute; reflexivity.
+Qed.
+
 (* ---------------------------------------------------------------- non-vacuity *)
 
 (* a user table with a conflict inside one rotation class ((0,1,0,0,0) and its turn (0,0,1,0,0)) and a second
@@ -201,5 +281,11 @@ Print Assumptions C15_evoloop_orientation_free.
 Print Assumptions C15_loops_orientation_free_all_states.
 Print Assumptions C15_sdsr_defaults.
 Print Assumptions C15_evoloop_defaults.
-From CPL Require Import gen.GenFuns GenProps.GenFunsEquivC15 GenProps.C15Src. (* source tie: gen/GenFuns.v is regenerated from sdsr_loop.py, evoloop.py, ctrbl_rule.py on every run *)
+Print Assumptions C15_eight_always_zero.
+Print Assumptions C15_undefined_zero_stays_zero.
+Print Assumptions C15_undefined_1_7_become_eight.
+Print Assumptions C15_eight_neighbour_rules.
+Print Assumptions C15_sdsr_tube_rules.
+Print Assumptions C15_loops_total_range_block.
+From CPL Require Import gen.GenFuns_C15 GenProps.GenFunsEquivC15 GenProps.C15Src. (* source tie: gen/GenFuns_C15.v is regenerated from sdsr_loop.py, evoloop.py, ctrbl_rule.py on every run *)
 Theorem C15_source_tie : (forall top right bottom left : Z, src_sdsr_is_in_tube top right bottom left = is_in_tube top right bottom left) /\ (forall c t r b l : Z, src_sdsr_default c t r b l = sdsr_default c t r b l) /\ (forall c t r b l : Z, src_evoloop_default c t r b l = evoloop_default c t r b l) /\ (forall (tbl : table) (n : list (list Z)), src_sdsr_call (lookup tbl) n = SDSRLoop_call tbl n) /\ (forall (tbl : table) (n : list (list Z)), src_evoloop_call (lookup tbl) n = Evoloop_call tbl n) /\ (forall (tbl : table) (n : list (list Z)), src_ctrbl_call (lookup tbl) n = CTRBLRule_call tbl n). Proof. exact C15_source_translation_agrees. Qed. Print Assumptions C15_source_tie.
